@@ -978,22 +978,33 @@ def _sum(self, func, res, args, kwargs, pre):
     self.write(res, S.reshape(tuple(res.shape)), fresh=True)
 
 
+def _as_small_int(t):
+    """the int8/uint8/bool term a float term was (exactly) cast from, if any"""
+    if t.op == "cast" and t.args[0].dt in (torch.int8, torch.uint8, torch.bool):
+        return t.args[0]
+    if t.op == "cast" and tm.is_float(t.args[0].dt) and tm._exact_upcast(t.args[0].dt, t.dt):
+        return _as_small_int(t.args[0])
+    return None
+
+
 def _dot_terms(self, c, rdt, xs, ys, real, extra=None):
-    """sum_k xs[k]*ys[k] (+ extra) with unspecified accumulation order; exact for integer dtypes"""
+    """sum_k xs[k]*ys[k] (+ extra) with unspecified accumulation order.  Integer contractions are exact (order is
+    irrelevant): they are kept as one int `dot` node.  A float32/float64 contraction whose operands are all exact casts of
+    8-bit integers is an exact integer too while K*2^14 < 2^p, whatever the summation order: it is rewritten to the cast of
+    the integer `dot`, which makes the integer-GEMM and float-GEMM routes comparable term for term."""
     if rdt in INTS:
-        acc = extra
-        for x, y in zip(xs, ys):
-            p = c.bin("mul", rdt, x, y)
-            acc = p if acc is None else c.bin("add", rdt, acc, p)
-        return acc
+        args = [t for p in zip(xs, ys) for t in p]
+        node = c.nary("dot", rdt, args, tm.wrap_int(sum(x.cv * y.cv for x, y in zip(xs, ys)), rdt))
+        return node if extra is None else c.bin("add", rdt, node, extra)
+    if rdt in (tm.F32, tm.F64) and extra is None and len(xs) * 2**14 < 2 ** tm.FMT[rdt]["p"]:
+        ix, iy = [_as_small_int(x) for x in xs], [_as_small_int(y) for y in ys]
+        if all(v is not None for v in ix + iy):
+            i32 = torch.int32
+            args = [t for p in zip((c.cast(v, i32) for v in ix), (c.cast(v, i32) for v in iy)) for t in p]
+            node = c.nary("dot", i32, args, sum(x.cv * y.cv for x, y in zip(ix, iy)))
+            return c.cast(node, rdt)
     self.float_sum_nodes += 1
-    flat = []
-    for x, y in zip(xs, ys):
-        if y.uid < x.uid:
-            x, y = y, x
-        flat.append((x, y))
-    flat.sort(key=lambda p: (p[0].uid, p[1].uid))
-    args = [t for p in flat for t in p]
+    args = [t for p in zip(xs, ys) for t in p]
     if extra is not None:
         return c.nary("dotb", rdt, [extra] + args, real)
     return c.nary("dot", rdt, args, real)
